@@ -140,7 +140,7 @@ def gen_clump(rng, tier):
         # every run holds them whatever the seed): more than 32 strong hits with p-values that differ only beyond single
         # precision; a dense window of tandem repeats with missing calls; a window that is not a whole number of base pairs with
         # a candidate in LD exactly on its last base pair
-        stream = {0: "tiny_p", 1: "dense", 2: "window"}.get(t % 10)
+        stream = {0: "tiny_p", 1: "dense", 2: "window", 3: "two_orders"}.get(t % 10)
         medium = stream == "tiny_p" or rng.random() < 0.03
         if medium:
             nv, ns = rng.randint(17, 45) if stream != "tiny_p" else rng.randint(34, 45), rng.randint(17, 40)
@@ -196,6 +196,17 @@ def gen_clump(rng, tier):
             over = {"p1": "1", "p2": "1", "kb": rng.choice([250, 1000])}
         elif stream == "dense":
             over = {"p1": rng.choice(["0.6", "1"]), "p2": "1", "r2": rng.choice([0.1, 0.5])}
+        elif stream == "two_orders" and nv >= 2 and ns >= 4:
+            # a SNP and an STR in complete LD, called in two files that list the same samples in different orders: they clump
+            # together only if the rows are aligned by sample name
+            c0 = variants[0]["chrom"]
+            col = [[i % 2, (i // 2) % 2] for i in range(ns)]  # not symmetric under reversal or rotation of the samples
+            gts[0] = [list(x) for x in col]
+            gts[1] = [[3 if a else 2, 5 if b else 2] for a, b in col]
+            types[0], types[1] = "SNP", "STR"
+            variants[0].update(pos=1000, p="1e-9")
+            variants[1].update(chrom=c0, pos=1200, p="0.001")
+            over = {"p1": "1", "p2": "1", "r2": 0.5, "kb": 250, "str_sample_order": rng.choice(["reversed", "rotated"]), "ld": "Pearson", "pgen": False}
         elif stream == "window" and nv >= 3:
             kb = rng.choice([32.3, 0.5002, 1.9003, 0.4003, 2.0015, 128.2])
             w = int(math.floor(Fraction(str(kb)) * 1000))  # the last whole base pair inside the window
@@ -301,7 +312,13 @@ def impl_clump(case):
             gfile = str(_dir / "g.vcf")
     str_order = [j for j in order if ty[j] == "STR"]
     if str_order:
-        write_str_vcf(_dir / "tr.vcf", samples, [(case["variants"][j]["id"] if case["variants"][j]["id"] != "." else f"tr{j}", case["variants"][j]["chrom"], case["variants"][j]["pos"], ["AC", "GTT", "A"][j % 3], case["gts"][j]) for j in str_order])
+        # the STR file lists the same samples, in half of the cases in another order than the SNP file (two call sets, two orders)
+        perm = list(range(len(samples)))
+        if case.get("str_sample_order"):
+            perm = perm[::-1] if case["str_sample_order"] == "reversed" else perm[1:] + perm[:1]
+        elif len(samples) > 1 and C.plumb(case, "str-sample-order", 2) == 0:
+            perm = perm[::-1] if C.plumb(case, "str-sample-order-kind", 2) == 0 else perm[1:] + perm[:1]
+        write_str_vcf(_dir / "tr.vcf", [samples[i] for i in perm], [(case["variants"][j]["id"] if case["variants"][j]["id"] != "." else f"tr{j}", case["variants"][j]["chrom"], case["variants"][j]["pos"], ["AC", "GTT", "A"][j % 3], [case["gts"][j][i] for i in perm]) for j in str_order])
         sfile = str(_dir / "tr.vcf")
     out = _dir / "out.clump"
     if C.plumb(case, "stale-out", 3) == 0:
